@@ -34,9 +34,12 @@ def _rune_len(b):
         return len(b)
 
 
-def parse_table(out):
-    """Parse the table output. Returns Table (errors collected in .errors)."""
+def parse_table(out, lenient=False):
+    """Parse the table output. Returns Table (errors collected in .errors).
+    lenient: names may contain LF (refgroup display names, file names in footnotes): lines of the row region that are
+    not row-shaped are collected in .noise, footnote lines that do not start with [n] continue the previous footnote."""
     t = Table()
+    t.noise = []
     if out == NOPROBLEMS:
         t.no_problems = True
         return t
@@ -44,15 +47,18 @@ def parse_table(out):
         t.errors.append("missing table header")
         return t
     body = out[len(HEADER1) + len(HEADER2) + 2:]
-    # The table region is the maximal prefix of lines that look like rows; the
-    # footnote region is everything after the last row line.
     lines = body.split(b"\n")
-    # rows: consecutive lines from the top starting with '| ' and ending with ' |'
-    i = 0
-    while i < len(lines) and lines[i].startswith(b"| ") and lines[i].endswith(b" |"):
-        i += 1
-    # names may contain LF (refgroup display names): be lenient -- find the last line that ends
-    # a row (ends with the fixed 30-col concern cell) before a blank line
+    if lenient:
+        # the row region ends at the last line that ends like a row
+        last = -1
+        for i, ln in enumerate(lines):
+            if ln.endswith(b" |") and ROW_TAIL.match(ln if ln.startswith(b"| ") else b"| " + ln):
+                last = i
+        i = last + 1
+    else:
+        i = 0
+        while i < len(lines) and lines[i].startswith(b"| ") and lines[i].endswith(b" |"):
+            i += 1
     rowlines = lines[:i]
     rest = lines[i:]
     for ln in rowlines:
@@ -60,7 +66,10 @@ def parse_table(out):
         r = Row()
         r.raw = ln
         if not m:
-            t.errors.append("unparsable row %r" % ln[:120])
+            if lenient:
+                t.noise.append(ln)
+            else:
+                t.errors.append("unparsable row %r" % ln[:120])
             continue
         cell, value, unit, concern = m.group(1), m.group(2), m.group(3), m.group(4)
         r.value, r.unit, r.concern = value, unit.rstrip(b" "), concern.rstrip(b" ")
@@ -90,7 +99,11 @@ def parse_table(out):
         for ln in rest:
             fm = FOOT_RE.match(ln)
             if not fm:
-                t.errors.append("unparsable footnote line %r" % ln[:120])
+                if lenient and t.footnotes:
+                    n, tx = t.footnotes[-1]
+                    t.footnotes[-1] = (n, tx + b"\n" + ln)
+                else:
+                    t.errors.append("unparsable footnote line %r" % ln[:120])
                 continue
             t.footnotes.append((int(fm.group(1)), fm.group(2)))
     return t
